@@ -459,6 +459,164 @@ Example known_classes_not_good :
                [DDeleteAll; DAdd 2 5 300; DFinish 52 3600] = false.
 Proof. vm_compute. repeat split; reflexivity. Qed.
 
+(* ---- several batches ---- *)
+Ltac msplit := split; [|split; [|split]].
+Definition soa_shape (st : store) : Prop := exists t s, s_get 0 st = Some (t, [s]).
+
+Definition minv (st : dstate) : Prop :=
+  pub_ne (ds_pub st) /\ soa_shape (ds_pub st) /\ soa_shape (ds_work st) /\
+  forall k, k <> 0 -> kinv (ds_pub st) st k.
+
+Lemma minv_start pub : pub_ok pub = true -> minv (d_start pub).
+Proof.
+  intros H. pose proof (pub_ok_ne pub H) as Hn.
+  assert (S : soa_shape pub).
+  { unfold pub_ok in H. apply andb_prop in H as [_ H0]. unfold soa_shape.
+    destruct (s_get 0 pub) as [[to [|so [|? ?]]]|]; try discriminate. eauto. }
+  unfold minv, d_start; cbn [ds_pub ds_work]. msplit; auto. intros k _. apply kinv_start. exact Hn.
+Qed.
+
+Lemma work0_update k v st : k <> 0 -> s_get 0 (ds_work (update_rrset k v st)) = s_get 0 (ds_work st).
+Proof.
+  intros Hk. unfold update_rrset.
+  match goal with |- s_get 0 (ds_work (let '(_, _) := ?m in _)) = _ => destruct m end.
+  cbn [ds_work]. apply s_get_set_other. auto.
+Qed.
+
+Lemma work0_remove k st : k <> 0 -> s_get 0 (ds_work (remove_rrset k st)) = s_get 0 (ds_work st).
+Proof. intros Hk. unfold remove_rrset. cbn [ds_work]. apply s_get_remove_other. auto. Qed.
+
+(* the content a commit publishes is a well-formed published content again *)
+Lemma minv_committed st :
+  minv st -> minv (d_start (ds_work st)).
+Proof.
+  intros [Hn [Sp [Sw K]]]. unfold d_start, minv. cbn [ds_pub ds_work].
+  assert (Wn : pub_ne (ds_work st)).
+  { intros k v E. destruct (N.eq_dec k 0) as [->|Hk].
+    - destruct Sw as [t [s0 Es]]. rewrite Es in E. inversion E; subst. cbn. discriminate.
+    - destruct (K k Hk) as [_ [_ [IW _]]]. exact (IW v E). }
+  msplit; auto. intros k _. apply (kinv_start (ds_work st) k Wn).
+Qed.
+
+Lemma d_commit_state st : fst (d_commit st) = d_start (ds_work st).
+Proof. reflexivity. Qed.
+
+Lemma minv_step o st :
+  minv st -> (if is_commit_op o then true else good_op o st) = true -> minv (fst (d_step o st)).
+Proof.
+  intros M G. destruct M as [Hn [Sp [Sw K]]]. unfold minv, soa_shape in *.
+  destruct o as [|k0 d t|k0 d t| |s t|s t]; cbn [is_commit_op] in G.
+  - discriminate.
+  - (* DAdd *)
+    assert (Hk0 : k0 <> 0).
+    { cbn [good_op] in G. apply andb_prop in G as [G _]. apply andb_prop in G as [G _]. apply andb_prop in G as [G _].
+      destruct (N.eqb_spec k0 0); [discriminate|auto]. }
+    cbn [d_step fst]. rewrite ds_pub_update, (work0_update _ _ _ Hk0).
+    msplit; auto. intros k Hk.
+    destruct (kinv_step (ds_pub st) st (DAdd k0 d t) k eq_refl Hn G Hk (K k Hk)) as [I _]. exact I.
+  - (* DDel *)
+    assert (Hk0 : k0 <> 0).
+    { cbn [good_op] in G. apply andb_prop in G as [G _]. apply andb_prop in G as [G _]. apply andb_prop in G as [G _].
+      destruct (N.eqb_spec k0 0); [discriminate|auto]. }
+    assert (E0 : s_get 0 (ds_work (fst (d_step (DDel k0 d t) st))) = s_get 0 (ds_work st)).
+    { cbn [d_step fst]. destruct (is_nil _); [apply work0_remove|apply work0_update]; auto. }
+    assert (Ep : ds_pub (fst (d_step (DDel k0 d t) st)) = ds_pub st).
+    { cbn [d_step fst]. destruct (is_nil _); [apply ds_pub_remove|apply ds_pub_update]. }
+    rewrite Ep, E0.
+    msplit; auto. intros k Hk.
+    destruct (kinv_step (ds_pub st) st (DDel k0 d t) k eq_refl Hn G Hk (K k Hk)) as [I _]. exact I.
+  - (* DBatch *)
+    cbn [d_step]. destruct (d_commit st) as [st' r] eqn:C. cbn [fst].
+    assert (st' = d_start (ds_work st)) by (rewrite <- (d_commit_state st), C; reflexivity). subst st'.
+    apply minv_committed. unfold minv, soa_shape. msplit; auto.
+  - (* DSoa *)
+    cbn [d_step fst]. rewrite ds_pub_update.
+    msplit; auto.
+    + exists t, s. unfold update_rrset.
+      match goal with |- s_get 0 (ds_work (let '(_, _) := ?m in _)) = _ => destruct m end.
+      cbn [ds_work]. apply s_get_set_same.
+    + intros k Hk. apply kinv_other_update; auto.
+  - (* DFinish *)
+    cbn [d_step]. destruct (d_commit (update_rrset 0 (t, [s]) st)) as [st' r] eqn:C. cbn [fst].
+    assert (st' = d_start (ds_work (update_rrset 0 (t, [s]) st))) by (rewrite <- d_commit_state, C; reflexivity).
+    subst st'. apply minv_committed. unfold minv, soa_shape. rewrite ds_pub_update.
+    msplit; auto.
+    + exists t, s. unfold update_rrset.
+      match goal with |- s_get 0 (ds_work (let '(_, _) := ?m in _)) = _ => destruct m end.
+      cbn [ds_work]. apply s_get_set_same.
+    + intros k Hk. apply kinv_other_update; auto.
+Qed.
+
+Lemma minv_run ops : forall st, minv st -> good_multi ops st = true -> minv (fst (d_run ops st)).
+Proof.
+  induction ops as [|o ops IH]; intros st M G; cbn [d_run good_multi] in *; [exact M|].
+  apply andb_prop in G as [G1 G2].
+  pose proof (minv_step o st M G1) as M1.
+  destruct (d_step o st) as [st1 r1]. cbn [fst] in *.
+  specialize (IH st1 M1 G2). destruct (d_run ops st1) as [st2 r2]. exact IH.
+Qed.
+
+Lemma good_multi_app a : forall b st,
+  good_multi (a ++ b) st = true -> good_multi a st = true /\ good_multi b (fst (d_run a st)) = true.
+Proof.
+  induction a as [|o a IH]; intros b st G; cbn [app good_multi d_run] in *; [auto|].
+  apply andb_prop in G as [G1 G2]. destruct (d_step o st) as [st1 r1] eqn:S. cbn [fst] in *.
+  destruct (IH b st1 G2) as [A B]. rewrite G1, A. split; [reflexivity|].
+  destruct (d_run a st1). exact B.
+Qed.
+
+(* a commit on a state with the invariant reports a diff that applies *)
+Lemma commit_applies st rem add :
+  minv st -> snd (d_commit st) = Some (rem, add) ->
+  forall k, same_rrset (applied_at k (ds_pub st) rem add) (s_get k (ds_work st)).
+Proof.
+  intros [Hn [[to [so P0]] [[tn [sn W0]] K]]] C k.
+  unfold d_commit in C. rewrite P0, W0 in C. cbn [snd] in C.
+  destruct (serial_range_invalid (soa_serial so) (soa_serial sn)); [discriminate|].
+  inversion C; subst rem add. clear C.
+  destruct (N.eq_dec k 0) as [->|Hk].
+  - unfold applied_at. rewrite P0, !s_get_set_same, W0. unfold rrs_minus. cbn [snd fst filter memN existsb].
+    rewrite N.eqb_refl. cbn. split; [reflexivity|]. intros x. tauto.
+  - unfold applied_at. rewrite !(s_get_set_other 0 k _ _ Hk).
+    exact (kinv_applies (ds_pub st) st k Hn (K k Hk)).
+Qed.
+
+(* every diff reported in a multi-step history of good batches applies to the
+   version that was published when its batch began *)
+Theorem good_multi_diff_applies pub pre o post rem add :
+  pub_ok pub = true -> good_multi (pre ++ o :: post) (d_start pub) = true ->
+  let st := fst (d_run pre (d_start pub)) in
+  snd (d_step o st) = [Some (rem, add)] ->
+  forall k, same_rrset (applied_at k (ds_pub st) rem add) (s_get k (ds_work (fst (d_step o st)))).
+Proof.
+  intros Hok G st R k.
+  destruct (good_multi_app pre (o :: post) _ G) as [Gp Go].
+  pose proof (minv_run pre _ (minv_start pub Hok) Gp) as M. fold st in M, Go.
+  cbn [good_multi] in Go. apply andb_prop in Go as [Go _].
+  destruct o as [|k0 d t|k0 d t| |s t|s t]; cbn [d_step snd] in R; try discriminate.
+  - (* DBatch *)
+    cbn [d_step]. destruct (d_commit st) as [st' r] eqn:C. cbn [fst snd] in *.
+    inversion R; subst r.
+    assert (st' = d_start (ds_work st)) by (rewrite <- (d_commit_state st), C; reflexivity). subst st'.
+    cbn [d_start ds_work]. apply commit_applies; [exact M|rewrite C; reflexivity].
+  - (* DFinish *)
+    cbn [d_step]. set (st1 := update_rrset 0 (t, [s]) st) in *.
+    destruct (d_commit st1) as [st' r] eqn:C. cbn [fst snd] in *. inversion R; subst r.
+    assert (st' = d_start (ds_work st1)) by (rewrite <- (d_commit_state st1), C; reflexivity). subst st'.
+    cbn [d_start ds_work].
+    assert (M1 : minv st1) by (apply (minv_step (DSoa s t) st M); reflexivity).
+    assert (Ep : ds_pub st1 = ds_pub st) by (unfold st1; apply ds_pub_update).
+    rewrite <- Ep. apply commit_applies; [exact M1|rewrite C; reflexivity].
+Qed.
+
+Example good_multi_example :
+  good_history_multi [(0, (3600, [50])); (1, (300, [5; 6]))]
+    [DBatch; DDel 1 5 300; DSoa 52 3600; DAdd 1 7 300; DBatch; DDel 1 6 300; DDel 1 7 300; DSoa 54 3600; DAdd 2 9 60; DFinish 54 3600] = true /\
+  applies_multi
+    [DBatch; DDel 1 5 300; DSoa 52 3600; DAdd 1 7 300; DBatch; DDel 1 6 300; DDel 1 7 300; DSoa 54 3600; DAdd 2 9 60; DFinish 54 3600]
+    (d_start [(0, (3600, [50])); (1, (300, [5; 6]))]) = true.
+Proof. vm_compute. split; reflexivity. Qed.
+
 (* ---- the serial range check of InMemoryZoneDiff::new is in RFC 1982 order
    (C17's closed form of Serial::partial_cmp), not in integer order ---- *)
 Ltac Zify.zify_post_hook ::= Z.div_mod_to_equations.
